@@ -149,10 +149,10 @@ class Engine:
 
     def decide(self, cond):
         """cond: z3 BoolRef; returns the Python bool of the branch taken on this path"""
-        cond = z3.simplify(cond)
-        if z3.is_true(cond):
+        sc = z3.simplify(cond)      # only to spot constants: the path condition keeps the original shape
+        if z3.is_true(sc):
             return True
-        if z3.is_false(cond):
+        if z3.is_false(sc):
             return False
         key = cond.get_id()
         if key in self.dcache:
@@ -207,9 +207,11 @@ class Engine:
             raise Infeasible()
 
     def obligation(self, kind, cond, site=None):
+        """safety obligation; it is proved from the hypotheses that exist at this point of the path only"""
         if isinstance(cond, BoolT):
             cond = cond.z
-        self.oblig.append((kind, cond, site or _site()))
+        pos = (len(self.path_assume), len(self.pc), len(self.defs))
+        self.oblig.append((kind, cond, (site or _site(), pos)))
 
 
 def _site():
@@ -386,21 +388,15 @@ class Term:
             if o == 1:
                 return s
             return Term(s.z / toz(o), s.nodes + 1)
-        d = toz(o)
-        E.obligation('div', d != 0)
-        t = Term(s.z / d, s.nodes + o.nodes)
-        cut = E.hooks.get('cut_div')
-        return cut(t, s, o) if cut else t
+        return divide(s, o)
 
     def __rtruediv__(s, o):
         if isinstance(o, _np.ndarray):
             return NotImplemented
-        E.obligation('div', s.z != 0)
         if isnum(o) and o == 0:
+            E.obligation('div', s.z != 0)
             return 0.0
-        t = Term(toz(o) / s.z, s.nodes + 1)
-        cut = E.hooks.get('cut_div')
-        return cut(t, o, s) if cut else t
+        return divide(o, s)
 
     def __pow__(s, o):
         if isinstance(o, Term):
@@ -435,7 +431,15 @@ class Term:
         raise EngineUnsupported(f"{o!r} ** term")
 
     def __mod__(s, o):
-        raise EngineUnsupported("modulo on a symbolic value")
+        """x % d for a positive constant d: range reduction by forking on the (few) periods the
+        contract's input range allows; outside [-3d, 3d) the function is out of reach"""
+        if not isnum(o) or not o > 0:
+            raise EngineUnsupported("modulo by a non-constant")
+        d = toz(o)
+        for k in (0, -1, 1, -2, 2, -3):
+            if E.decide(z3.And(s.z >= k * d, s.z < (k + 1) * d)):
+                return Term(s.z - k * d, s.nodes + 1) if k else Term(s.z, s.nodes)
+        raise EngineUnsupported("modulo: value outside [-3d, 3d)")
 
     def __floordiv__(s, o):
         raise EngineUnsupported("floor division on a symbolic value")
@@ -551,6 +555,42 @@ class Term:
     def deg2rad(s): return s * (math.pi / 180.0)
 
 
+def inverse_of(b):
+    """1/b for a non-constant term b as a fresh variable y with y*b == 1 (one per distinct denominator on a
+    path).  The safety obligation b != 0 is recorded *before* the definition is added and is proved from
+    the hypotheses that precede it only."""
+    cv = _const_val(b.z) if z3.is_rational_value(b.z) else None
+    if cv is not None:
+        if cv == 0:
+            E.obligation('div', z3.BoolVal(False))
+            raise ZeroDivisionError("division by a term that is the constant 0")
+        return float(1 / cv) if (1 / cv).denominator == 1 else Term(_rat(1 / cv))
+    E.obligation('div', b.z != 0)
+    key = ('inv', b.z.get_id())
+    if key in E.labels:
+        return E.labels[key][1]
+    y = E.fresh('inv')
+    E.defs.append(y * b.z == 1)
+    t = Term(y)
+    E.labels[key] = (b.z, t)
+    return t
+
+
+def divide(a, b):
+    """a / b with b a non-constant term: a * inverse_of(b), unless a certified exact quotient is found"""
+    if not isinstance(b, Term):
+        b = Term(toz(b))
+    cut = E.hooks.get('cut_div')
+    if cut:
+        E.obligation('div', b.z != 0)
+        r = cut(a, b)
+        if r is not None:
+            return r
+        E.oblig.pop()          # inverse_of records it again (same position)
+    y = inverse_of(b)
+    return a * y
+
+
 def fresh_sqrt(s):
     # one variable per syntactically identical radicand on a path
     key = ('sqrt', s.z.get_id())
@@ -596,7 +636,7 @@ def symarr(name, shape):
 # ------------------------------------------------------------------ exploration
 class Path:
     __slots__ = ('taken', 'pc', 'defs', 'assume', 'oblig', 'effects', 'outcome', 'goals', 'observed',
-                 'axioms', 'extra', 'frames', 'notes', 'links')
+                 'axioms', 'extra', 'frames', 'notes', 'links', 'extra_info')
 
 
 def explore(run, assume=(), max_paths=4000, on_path=None, prefix=()):
